@@ -3,4 +3,65 @@
 #![allow(missing_docs, unused_imports, unused, dead_code, unreachable_pub)]
 #![allow(clippy::all, clippy::pedantic)]
 
-// wrappers for the pkt property group
+// wrappers for the pkt property group (owner: a6)
+
+use std::net::IpAddr;
+
+use crate::ipfilter::IpFilter;
+use crate::keyset::{DecodedServerCookie, KeySet};
+use crate::nts::AeadAlgorithm;
+use crate::packet::{AesSivCmac256, AesSivCmac512, Cipher};
+use crate::server::IpSubnet;
+
+/// Build the content of a server cookie (`algorithm` is `pub(crate)`): AEAD id 15 -> 2x32-byte
+/// keys, 17 -> 2x64-byte keys. None when the key sizes do not fit the algorithm.
+pub fn make_cookie(alg: u16, s2c: &[u8], c2s: &[u8]) -> Option<DecodedServerCookie> {
+    let algorithm = AeadAlgorithm::from(alg);
+    match algorithm {
+        AeadAlgorithm::AeadAesSivCmac256 => Some(DecodedServerCookie {
+            algorithm,
+            s2c: Box::new(AesSivCmac256::try_from(s2c).ok()?),
+            c2s: Box::new(AesSivCmac256::try_from(c2s).ok()?),
+        }),
+        AeadAlgorithm::AeadAesSivCmac512 => Some(DecodedServerCookie {
+            algorithm,
+            s2c: Box::new(AesSivCmac512::try_from(s2c).ok()?),
+            c2s: Box::new(AesSivCmac512::try_from(c2s).ok()?),
+        }),
+        AeadAlgorithm::Unknown(_) => None,
+    }
+}
+
+/// (AEAD id, s2c key bytes, c2s key bytes) of a decoded cookie
+pub fn cookie_parts(c: &DecodedServerCookie) -> (u16, Vec<u8>, Vec<u8>) {
+    (
+        u16::from(c.algorithm),
+        c.s2c.key_bytes().to_vec(),
+        c.c2s.key_bytes().to_vec(),
+    )
+}
+
+pub fn encode_cookie(ks: &KeySet, c: &DecodedServerCookie) -> Vec<u8> {
+    ks.encode_cookie(c)
+}
+
+pub fn decode_cookie(ks: &KeySet, cookie: &[u8]) -> Option<DecodedServerCookie> {
+    ks.decode_cookie(cookie).ok()
+}
+
+/// decode and flatten in one go
+pub fn decode_cookie_parts(ks: &KeySet, cookie: &[u8]) -> Option<(u16, Vec<u8>, Vec<u8>)> {
+    ks.decode_cookie(cookie).ok().map(|c| cookie_parts(&c))
+}
+
+/// `IpFilter` is `pub(crate)`: opaque wrapper.
+pub struct Filter(IpFilter);
+
+impl Filter {
+    pub fn new(subnets: &[IpSubnet]) -> Filter {
+        Filter(IpFilter::new(subnets))
+    }
+    pub fn is_in(&self, addr: IpAddr) -> bool {
+        self.0.is_in(addr)
+    }
+}
